@@ -749,8 +749,8 @@ def iterlookupjoin(left, right, lkey, rkey, missing=None, lprefix=None,
     rkind = asindices(rhdr, rkey)
 
     # construct functions to extract key values from both tables
-    lgetk = operator.itemgetter(*lkind)
-    rgetk = operator.itemgetter(*rkind)
+    lgetk = comparable_itemgetter(*lkind)
+    rgetk = comparable_itemgetter(*rkind)
 
     # determine indices of non-key fields in the right table
     # (in the output, we only include key fields from the left table - we
@@ -792,12 +792,16 @@ def iterlookupjoin(left, right, lkey, rkey, missing=None, lprefix=None,
     lrowgrp = []
 
     # loop until *either* of the iterators is exhausted
-    lkval, rkval = None, None  # initialise here to handle empty tables
+    # initialise here to handle empty tables
+    lkval, rkval = Comparable(None), Comparable(None)
+    rempty = False
     try:
 
         # pick off initial row groups
         lkval, lrowgrp = next(lgit)
+        rempty = True  # unless the next line finds a right group
         rkval, rrowgrp = next(rgit)
+        rempty = False
 
         while True:
             if lkval < rkval:
@@ -819,7 +823,7 @@ def iterlookupjoin(left, right, lkey, rkey, missing=None, lprefix=None,
         pass
 
     # make sure any left rows remaining are yielded
-    if lkval > rkval:
+    if rempty or lkval > rkval:
         # yield anything that got left hanging
         for row in joinrows(lrowgrp, None):
             yield tuple(row)
